@@ -4,7 +4,8 @@ origin), TLC judges the record."""
 import json, os, re, shutil
 import vlib
 
-ALL_KINDS = {"get_a", "get_b", "get_c", "post_d", "get_e", "get_f", "head_a", "head_b", "head_c", "range_a", "range_b", "bad_a"}
+ALL_KINDS = {"get_a", "get_b", "get_c", "post_d", "get_e", "get_f", "head_a", "head_b", "head_c", "range_a", "range_b", "bad_a",
+             "getbody_a", "post_big", "get_g"}
 
 
 def relay_run(slices, backend="memory", transports=("plain", "tunnel")):
